@@ -509,6 +509,23 @@ fn stalled_case(kind: u8, queued_kb: usize, res: &mut CaseResult) {
             h.with(|st| st.budget = usize::MAX);
             vec!["ServerClosedConnection(320,\"going down\")".into()]
         }
+        7 => {
+            // like kind 5, but the Close and the reset arrive while the I/O thread is already
+            // inside its write: the write fails, and only then is there something to read
+            h.with(|st| {
+                st.hold_write = true;
+                st.budget = usize::MAX;
+            });
+            if !h.wait(W, |st| st.parked_in_write) {
+                h.with(|st| st.hold_write = false);
+                res.inconclusive("the I/O thread did not start writing");
+                return;
+            }
+            h.with(|st| st.fail_write_from = Some((st.write_calls, ErrorKind::ConnectionReset)));
+            h.inject_then_end(conn_close_frame(320, "going down"), Some(InEnd::Err(ErrorKind::ConnectionReset)));
+            h.with(|st| st.hold_write = false);
+            vec!["ServerClosedConnection(320,\"going down\")".into()]
+        }
         _ => {
             // a client exception (the broker sends Channel.Flow, which this client does not
             // implement) whose Close cannot be written, then the stream ends
@@ -811,7 +828,7 @@ pub fn run(rc: &mut RunCtx) {
     }
     // fault sequences with data queued behind a stalled transport
     for rep in 0..rc.n(2, 8) {
-        for kind in 0..7u8 {
+        for kind in 0..8u8 {
             for kb in [0usize, 8, 2000] {
                 let id = format!("stalled:kind{}:{}KB:{}", kind, kb, rep);
                 if !rc.mine(&id) {
@@ -820,7 +837,7 @@ pub fn run(rc: &mut RunCtx) {
                 rc.begin(&id);
                 let mut res = CaseResult::new(id);
                 stalled_case(kind, kb, &mut res);
-                let kind_name = ["EOF", "read error", "server close then EOF", "server close then read error", "write error after the stall", "server close readable in the wake-up in which the pending write fails", "client exception then EOF"][kind as usize];
+                let kind_name = ["EOF", "read error", "server close then EOF", "server close then read error", "write error after the stall", "server close readable in the wake-up in which the pending write fails", "client exception then EOF", "server close and reset arriving while a write is under way"][kind as usize];
                 res.sample = if rep == 0 && kb == 8 { Some(json!({"stalled_transport": true, "fault_kind": kind_name, "queued_kb": kb})) } else { None };
                 rc.end(res);
             }
